@@ -160,8 +160,10 @@ def scalar(v):
 
 
 # ------------------------------------------------------------------------------------------------ trapezoid case
-def run_trap(ctx, drv, case):
-    """one 1-D trapezoid case; returns ok"""
+def run_trap(ctx, drv, case, grid=None, report=None):
+    """one 1-D trapezoid case; returns ok.  `grid`: an already used GlobalTrapezoidalGrid object to be re-used for this
+    grid (object history); `report`: the case to store in replays (the whole history)"""
+    rc = report if report is not None else case
     import numpy as np
     from sparseSpACE.Grid import GlobalTrapezoidalGrid
     Table, Mono = make_functions()
@@ -174,16 +176,18 @@ def run_trap(ctx, drv, case):
     n = len(pts)
     ok = True
     tags = {"family": "trapezoid", "boundary": bd, "modified": md, "n": n}
+    if grid is not None:
+        tags["reused_object"] = True
 
     def corr(obs, impl, model):
         nonlocal ok
         ok = False
-        ctx.corr_break("C09/" + obs, case, {"impl": str(impl)[:400], "model": str(model)[:400]})
+        ctx.corr_break("C09/" + obs, rc, {"impl": str(impl)[:400], "model": str(model)[:400]})
 
     # ---- implementation
     impl = None
     try:
-        g = GlobalTrapezoidalGrid([float(a)], [float(b)], boundary=bd, modified_basis=md)
+        g = grid if grid is not None else GlobalTrapezoidalGrid([float(a)], [float(b)], boundary=bd, modified_basis=md)
         g.set_grid([list(ptsf)], [list(lv)])
         impl = ([float(x) for x in g.coordinate_array[0]], [float(x) for x in g.weights[0]], [int(x) for x in g.levels[0]])
     except (IndexError, AssertionError, ZeroDivisionError) as e:
@@ -209,7 +213,7 @@ def run_trap(ctx, drv, case):
         # an exception on a well-formed refinement-tree grid is a violation of the property (it promises a value)
         if impl[0] == "err" and case.get("wellformed"):
             ok = False
-            ctx.violation("trap-exception", dict(tags, exc=impl[1]), case, {"error": impl[1]})
+            ctx.violation("trap-exception", dict(tags, exc=impl[1]), rc, {"error": impl[1]})
         return ok
     ic, iw, il = impl
     mc, mw, ml = model
@@ -237,7 +241,7 @@ def run_trap(ctx, drv, case):
             corr("compute_weights", raw, [str(x) for x in rawm])
         if raw != raw2:
             ok = False
-            ctx.violation("trap-level-dependence", tags, case, {"compute_weights": raw, "with_levels": raw2})
+            ctx.violation("trap-level-dependence", tags, rc, {"compute_weights": raw, "with_levels": raw2})
     except Exception as e:
         corr("compute_weights-exception", repr(e), "")
     # ---- oracle on the implementation's own output
@@ -246,7 +250,7 @@ def run_trap(ctx, drv, case):
     want_coords = ptsq if bd else ptsq[1:-1]
     if coords != want_coords:
         ok = False
-        ctx.violation("trap-points", tags, case, {"coords": ic, "expected": [float(x) for x in want_coords]})
+        ctx.violation("trap-points", tags, rc, {"coords": ic, "expected": [float(x) for x in want_coords]})
         return ok
     vals = [F(v) for v in case["vals"]][:len(coords)]
     seen = {}
@@ -269,14 +273,14 @@ def run_trap(ctx, drv, case):
         return ok
     if not close(s, spec, TOL, vscale, terms):
         ok = False
-        ctx.violation("trap-pl-integral", tags, case, {"sum_w_f": float(s), "pl_integral": float(spec)})
+        ctx.violation("trap-pl-integral", tags, rc, {"sum_w_f": float(s), "pl_integral": float(spec)})
     # the same through grid.integrate and through the model
     try:
         tab = Table([{float(c): float(v) for c, v in zip(ic, vals)}])
         iv = scalar(g.integrate(tab, [max(lv) if lv else 0], [float(a)], [float(b)]))
         if not close(iv, spec, TOL, vscale, terms):
             ok = False
-            ctx.violation("trap-integrate", tags, case, {"integrate": iv, "pl_integral": float(spec)})
+            ctx.violation("trap-integrate", tags, rc, {"integrate": iv, "pl_integral": float(spec)})
         mv = parse_frac(drv.ask("integ %d %d %s %s %s %s" % (bd, md, frac_str(a), frac_str(b), fvec(ptsq), fvec(vals))))
         if not close(iv, mv, TOL, vscale, terms):
             corr("integrate", iv, str(mv))
@@ -288,7 +292,7 @@ def run_trap(ctx, drv, case):
     except Exception as e:
         if wf:
             ok = False
-            ctx.violation("trap-exception", dict(tags, exc=type(e).__name__), case, {"integrate raised": repr(e)[:300]})
+            ctx.violation("trap-exception", dict(tags, exc=type(e).__name__), rc, {"integrate raised": repr(e)[:300]})
         else:
             ctx.count("malformed_integrate_" + type(e).__name__)
             return ok
@@ -303,40 +307,41 @@ def run_trap(ctx, drv, case):
             mterms = sum((abs(w * c ** k) for w, c in zip(W, coords)), F(0))
             if not close(m, moment(ptsq[0], ptsq[-1], k), TOL, mscale, mterms):
                 ok = False
-                ctx.violation("trap-linear-exact", dict(tags, degree=k), case, {"moment": float(m), "exact": float(moment(ptsq[0], ptsq[-1], k))})
+                ctx.violation("trap-linear-exact", dict(tags, degree=k), rc, {"moment": float(m), "exact": float(moment(ptsq[0], ptsq[-1], k))})
             iv = scalar(g.integrate(Mono([k]), [0], [float(a)], [float(b)])) if spans else moment(a, b, k)
             if not close(iv, moment(a, b, k), TOL, mscale, mterms):
                 ok = False
-                ctx.violation("trap-linear-exact", dict(tags, degree=k, via="integrate"), case, {"integrate": iv, "exact": float(moment(a, b, k))})
+                ctx.violation("trap-linear-exact", dict(tags, degree=k, via="integrate"), rc, {"integrate": iv, "exact": float(moment(a, b, k))})
     elif md:
         ctx.count("mod3_offcentre_single_interior_point")   # no one-point rule is exact for degree 1 there (theorem modTrap_three)
         if not close(sum(W, F(0)), b - a, TOL, float(b - a), sum((abs(w) for w in W), F(0))):
             ok = False
-            ctx.violation("trap-linear-exact", dict(tags, degree=0), case, {"sum": float(sum(W, F(0)))})
+            ctx.violation("trap-linear-exact", dict(tags, degree=0), rc, {"sum": float(sum(W, F(0)))})
     if not md and any(w < 0 for w in W):
         ok = False
-        ctx.violation("trap-nonneg", tags, case, {"weights": iw})
+        ctx.violation("trap-nonneg", tags, rc, {"weights": iw})
     # level independence: same points, other level list
     try:
         g2 = GlobalTrapezoidalGrid([float(a)], [float(b)], boundary=bd, modified_basis=md)
         g2.set_grid([list(ptsf)], [list(case["levels2"])])
         if [float(x) for x in g2.weights[0]] != iw or [float(x) for x in g2.coordinate_array[0]] != ic:
             ok = False
-            ctx.violation("trap-level-dependence", tags, case, {"weights": iw, "weights_other_levels": [float(x) for x in g2.weights[0]]})
+            ctx.violation("trap-level-dependence", tags, rc, {"weights": iw, "weights_other_levels": [float(x) for x in g2.weights[0]]})
         mo = parse_setgrid(drv.ask("setgrid %d %d %s %s %s %s" % (bd, md, frac_str(a), frac_str(b), fvec(ptsq), ivec(case["levels2"]))))
         if mo[0] == "err" or mo[1] != mw:
             corr("level-independence(model)", "", str(mo)[:200])
     except Exception as e:
         ok = False
-        ctx.violation("trap-level-dependence", dict(tags, exc=type(e).__name__), case, {"raised": repr(e)[:300]})
+        ctx.violation("trap-level-dependence", dict(tags, exc=type(e).__name__), rc, {"raised": repr(e)[:300]})
     return ok
 
 
-def run_trap2d(ctx, drv, case):
+def run_trap2d(ctx, drv, case, grid=None, report=None):
     """dim 2: tensor weights and products of linear monomials"""
     import numpy as np
     from sparseSpACE.Grid import GlobalTrapezoidalGrid
     Table, Mono = make_functions()
+    rc = report if report is not None else case
     bd, md = bool(case["boundary"]), bool(case["modified"])
     dims = case["dims"]
     a = [F(d["a"]) for d in dims]
@@ -346,19 +351,19 @@ def run_trap2d(ctx, drv, case):
     tags = {"family": "trapezoid", "boundary": bd, "modified": md, "dim": 2}
     ok = True
     try:
-        g = GlobalTrapezoidalGrid([float(x) for x in a], [float(x) for x in b], boundary=bd, modified_basis=md)
+        g = grid if grid is not None else GlobalTrapezoidalGrid([float(x) for x in a], [float(x) for x in b], boundary=bd, modified_basis=md)
         g.set_grid([list(p) for p in ptsf], lv)
         pw = g.get_points_and_weights()
         P = [tuple(float(c) for c in p) for p in pw[0]]
         Wt = [float(w) for w in pw[1]]
     except Exception as e:
-        ctx.violation("trap-exception", dict(tags, exc=type(e).__name__), case, {"raised": repr(e)[:300]})
+        ctx.violation("trap-exception", dict(tags, exc=type(e).__name__), rc, {"raised": repr(e)[:300]})
         return False
     mods = []
     for d in range(2):
         m = parse_setgrid(drv.ask("setgrid %d %d %s %s %s %s" % (bd, md, frac_str(a[d]), frac_str(b[d]), fvec([F(x) for x in ptsf[d]]), ivec(lv[d]))))
         if m[0] == "err":
-            ctx.corr_break("C09/tensor-model-error", case, {"model": m})
+            ctx.corr_break("C09/tensor-model-error", rc, {"model": m})
             return False
         mods.append(m)
     mp = [(float(x), float(y)) for x in mods[0][0] for y in mods[1][0]]
@@ -366,7 +371,7 @@ def run_trap2d(ctx, drv, case):
     scale = float((b[0] - a[0]) * (b[1] - a[1]))
     if P != mp or len(Wt) != len(mw) or any(not close(Wt[k], mw[k], TOL, scale) for k in range(len(mw))):
         ok = False
-        ctx.corr_break("C09/tensor-points-weights", case, {"impl": str(list(zip(P, Wt)))[:300], "model": str(list(zip(mp, [float(x) for x in mw])))[:300]})
+        ctx.corr_break("C09/tensor-points-weights", rc, {"impl": str(list(zip(P, Wt)))[:300], "model": str(list(zip(mp, [float(x) for x in mw])))[:300]})
     if bd or (md and min(len(p) for p in ptsf) >= 4):
         for kx in (0, 1):
             for ky in (0, 1):
@@ -375,7 +380,7 @@ def run_trap2d(ctx, drv, case):
                 sc = scale * max(1.0, *[abs(float(x)) for x in a + b]) ** 2
                 if not close(iv, ex, TOL, sc):
                     ok = False
-                    ctx.violation("trap-linear-exact", dict(tags, degree=kx + ky), case, {"integrate": iv, "exact": float(ex), "monomial": [kx, ky]})
+                    ctx.violation("trap-linear-exact", dict(tags, degree=kx + ky), rc, {"integrate": iv, "exact": float(ex), "monomial": [kx, ky]})
     return ok
 
 
@@ -402,7 +407,7 @@ def bspline_mod_regime(weighted, L, p):
     return "regular"
 
 
-def run_family(ctx, case):
+def run_family(ctx, case, grid=None, report=None):
     """families without exact model: oracle only"""
     import numpy as np
     from sparseSpACE import Grid as G
@@ -420,16 +425,21 @@ def run_family(ctx, case):
     tags = {"family": fam, "p": p, "boundary": bd, "modified": md, "dim": dim}
     af, bf = [float(x) for x in a], [float(x) for x in b]
     ok = True
+    rc = report if report is not None else case
+    if grid is not None:
+        tags["reused_object"] = True
 
     def viol(probe, t, detail):
         # GlobalHighOrderGrid with the modified basis fails in several ways (exceptions, garbage values): one probe id
         if fam == "highorder" and md:
             t = dict(t, kind=probe)
             probe = "highorder-modified"
-        ctx.violation(probe, t, case, detail)
+        ctx.violation(probe, t, rc, detail)
 
     try:
-        if fam == "highorder":
+        if grid is not None:
+            g = grid
+        elif fam == "highorder":
             g = G.GlobalHighOrderGrid(af, bf, boundary=bd, modified_basis=md)
         elif fam == "lagrange":
             g = G.GlobalLagrangeGrid(af, bf, boundary=bd, modified_basis=md, p=p)
@@ -641,8 +651,124 @@ def weighted_full(rng, a, b, L):
     return [x for x, _ in pl], [l for _, l in pl]
 
 
+def gen_order(rng, n, grade, maxdepth):
+    """split order of a refinement tree (which cell is split, in sequence) -- the SHAPE of the tree, i.e. its level labels"""
+    lv = [0, 0]
+    order = []
+    guard = 0
+    while len(lv) < n and guard < 10 * n:
+        guard += 1
+        cells = list(range(len(lv) - 1))
+        depth = [max(lv[i], lv[i + 1]) for i in cells]
+        cand = [k for k in cells if depth[k] + 1 <= maxdepth]
+        if not cand:
+            break
+        if rng.random() < grade:
+            m = max(depth[k] for k in cand)
+            i = rng.choice([k for k in cand if depth[k] == m])
+        else:
+            i = rng.choice(cand)
+        order.append(i)
+        lv.insert(i + 1, depth[i] + 1)
+    return order
+
+
+def build_from_order(rng, a, b, order, weighted):
+    """the tree with the given split order; weighted: every split at its own random ratio (same level labels, other points)"""
+    pts = [(a, 0), (b, 0)]
+    for i in order:
+        t = rng.choice(RATIOS) if weighted else F(1, 2)
+        l = max(pts[i][1], pts[i + 1][1]) + 1
+        pts.insert(i + 1, (pts[i][0] + t * (pts[i + 1][0] - pts[i][0]), l))
+    return [p for p, _ in pts], [l for _, l in pts]
+
+
+def gen_history(rng, thorough):
+    """ONE grid object, several set_grid calls: same levels with different points (shared split order, other ratios), same points
+    with different levels, different trees; the library re-uses its grid object in exactly this way for all component grids"""
+    r = rng.random()
+    if r < 0.7:
+        fam, p, bd, md = ("trapezoid", 0) + rng.choice([(1, 0), (1, 0), (0, 0), (0, 1)])
+    else:
+        fam, p, bd, md = rng.choice([("highorder", 0, 1, 0), ("lagrange", 1, 1, 0), ("lagrange", 2, 1, 0), ("lagrange", 3, 1, 0),
+                                     ("bspline", 1, 1, 0), ("bspline", 3, 1, 0)])
+    dim = 2 if (fam == "trapezoid" and rng.random() < 0.2) else 1
+    dom = rng.choice(DOMAINS)
+    nmax = 14 if fam == "trapezoid" else 9
+    steps = []
+    order = gen_order(rng, rng.randint(3, nmax), rng.choice([0.0, 0.5, 0.9]), 9)
+    prev = None
+    for k in range(rng.randint(3, 6)):
+        kind = rng.choice(["same-shape", "same-shape", "same-points-new-levels", "fresh", "dyadic-shape"]) if k > 0 else "fresh"
+        if kind == "fresh":
+            order = gen_order(rng, rng.randint(3, nmax), rng.choice([0.0, 0.5, 0.9]), 9)
+        dims = []
+        for d in range(dim):
+            if kind == "same-points-new-levels" and prev is not None and fam == "trapezoid":
+                pts = [F(x) for x in prev[d]["pts"]]
+                lv = [rng.randint(0, 6) for _ in pts]
+            else:
+                pts, lv = build_from_order(rng, dom[0], dom[1], order, weighted=(kind != "dyadic-shape"))
+            n = len(pts)
+            dims.append({"a": frac_str(dom[0]), "b": frac_str(dom[1]), "pts": [frac_str(x) for x in pts], "levels": lv,
+                         "vals": [frac_str(F(rng.randint(-16, 16), rng.choice([1, 2, 4]))) for _ in range(n)],
+                         "levels2": [rng.randint(0, 9) for _ in range(n)]})
+        prev = dims
+        steps.append({"step": kind, "dims": dims})
+    return {"kind": "history", "family": fam, "p": p, "boundary": bd, "modified": md, "dim": dim,
+            "a": frac_str(dom[0]), "b": frac_str(dom[1]), "steps": steps}
+
+
+def run_history(ctx, drv, case):
+    """every step runs the full single-grid check (model correspondence for the trapezoid, oracle clauses for all families) on
+    the SAME object; a replay stores the whole history"""
+    from sparseSpACE import Grid as G
+    fam, p, dim = case["family"], int(case["p"]), int(case["dim"])
+    bd, md = bool(case["boundary"]), bool(case["modified"])
+    a, b = float(F(case["a"])), float(F(case["b"]))
+    try:
+        if fam == "trapezoid":
+            g = G.GlobalTrapezoidalGrid([a] * dim, [b] * dim, boundary=bd, modified_basis=md)
+        elif fam == "highorder":
+            g = G.GlobalHighOrderGrid([a] * dim, [b] * dim, boundary=bd, modified_basis=md)
+        elif fam == "lagrange":
+            g = G.GlobalLagrangeGrid([a] * dim, [b] * dim, boundary=bd, modified_basis=md, p=p)
+        else:
+            g = G.GlobalBSplineGrid([a] * dim, [b] * dim, boundary=bd, modified_basis=md, p=p)
+    except Exception as e:
+        ctx.violation("family-exception", {"family": fam, "modified": md, "boundary": bd, "exc": type(e).__name__}, case, {"constructor": repr(e)[:200]})
+        return False
+    ok = True
+    for k, st in enumerate(case["steps"]):
+        ctx.count("history_step_" + st["step"])
+        if fam == "trapezoid" and dim == 1:
+            d = st["dims"][0]
+            sub = dict(d, kind="trap", boundary=int(bd), modified=int(md), weighted=1, wellformed=1)
+            good = run_trap(ctx, drv, sub, grid=g, report=dict(case, failed_step=k))
+        elif fam == "trapezoid":
+            sub = {"kind": "trap2d", "boundary": int(bd), "modified": int(md), "dims": st["dims"]}
+            good = run_trap2d(ctx, drv, sub, grid=g, report=dict(case, failed_step=k))
+        else:
+            sub = {"kind": "family", "family": fam, "p": p, "boundary": int(bd), "modified": int(md), "weighted": int(st["step"] != "dyadic-shape"),
+                   "dims": st["dims"]}
+            good = run_family(ctx, sub, grid=g, report=dict(case, failed_step=k))
+        if not good:
+            ok = False
+            break
+    return ok
+
+
 def gen_trap2d(rng):
     bd, md = rng.choice([(1, 0), (0, 0), (0, 1)])
+    if rng.random() < 0.4:
+        # both dimensions on the same interval with the same level labels (shared split order) but different points
+        dom = rng.choice(DOMAINS)
+        order = gen_order(rng, rng.randint(3, 7), 0.5, 10)
+        dims = []
+        for _ in range(2):
+            pts, lv = build_from_order(rng, dom[0], dom[1], order, weighted=True)
+            dims.append({"a": frac_str(dom[0]), "b": frac_str(dom[1]), "pts": [frac_str(x) for x in pts], "levels": lv})
+        return {"kind": "trap2d", "boundary": bd, "modified": md, "dims": dims, "shared_shape": 1}
     dims = [case_dim(rng, rng.randint(3, 7), rng.random() < 0.3, 0.5, 10) for _ in range(2)]
     return {"kind": "trap2d", "boundary": bd, "modified": md, "dims": dims}
 
@@ -669,6 +795,8 @@ def run_case(ctx, drv, case):
         return run_trap(ctx, drv, case)
     if k == "trap2d":
         return run_trap2d(ctx, drv, case)
+    if k == "history":
+        return run_history(ctx, drv, case)
     return run_family(ctx, case)
 
 
